@@ -42,10 +42,9 @@ def run(chk):
     G = chk.guard
     G('address-step', 'forward/backward', lambda: addr_steps(chk))
     G('address-step', 'steps_between', lambda: steps_between(chk))
-    G('page-step', 'pages', lambda: page_steps(chk))
     G('index-step', 'table indices', lambda: index_steps(chk))
     G('step-overrides', 'provided Step methods', lambda: step_overrides(chk))
-    chk.floor('obligations', len(chk.obs), 42)
+    chk.floor('obligations', len(chk.obs), 100)
 
 
 def run_case(chk, fn_, args, st, sub=None):
@@ -55,249 +54,148 @@ def run_case(chk, fn_, args, st, sub=None):
     return outs
 
 
+def step_cases():
+    """(label, Step impl type name, generic substitution, log2 of the step size, constructor of the start value)"""
+    yield 'VirtAddr', VA, None, 0
+    for sname, sb in SIZES.items():
+        yield 'Page<%s>' % sname, PG + '<S>', {'S': size_ty(sname)}, sb
+
+
+def mk_start(tyname, bits):
+    return Struct(VA, [bits]) if tyname == VA else Struct(PG, [Struct(VA, [bits]), UNIT])
+
+
 def addr_steps(chk):
+    """forward_checked / backward_checked of the public `Step` impls of VirtAddr and Page<S>, end to end (the crate-private helpers they
+    go through are inlined by the interpreter, so their names, signatures and number are free to change)"""
     I = chk.I
-    for fn_, sign in ((VA + '::forward_checked_u64', +1), (VA + '::backward_checked_u64', -1)):
-        short = fn_.split('::')[-1]
-        for half in ('lower', 'upper'):
-            st = State()
-            b, r = half_va('start', half)
-            v = Struct(VA, [b])
-            declare(st, v, {'start': r, 'count': [(0, M64)]})
-            outs = run_case(chk, fn_, [v, BV.sym(64, 'count')], st)
-            tagc = '%s from the %s half' % (short, half)
-            sites = set()
-            for o in outs:
-                sites |= set(wrap_sites(o))
-            chk.ob('no-silent-wrap', tagc, not sites and all(o.kind == 'ret' for o in outs), 'unproved overflow sites %r; paths %r' % (sorted(sites, key=repr), [o.kind for o in outs]), fn_site(I, fn_))
-            somes = [o for o in outs if o.kind == 'ret' and o.val.vname == 'Some']
-            nones = [o for o in outs if o.kind == 'ret' and o.val.vname == 'None']
-            okc = bool(somes)
-            oke = bool(somes)
-            bad = None
-            for o in somes:
-                res = I.norm(o.st, inner(o.val.fields[0]))
-                if not canonical(res.bits):
-                    rr = I.rng_of(o.st, res)
-                    if not rr or not all(bb < (1 << 47) or aa >= (1 << 64) - (1 << 47) for aa, bb in rr):
+    for label, T, sub, sb in step_cases():
+        scale = 1 << sb
+        for meth, sign in (('forward_checked', +1), ('backward_checked', -1)):
+            fn_ = '<%s as core::iter::Step>::%s' % (T, meth)
+            for half in ('lower', 'upper'):
+                st = State()
+                b, r = half_va('start', half, sb) if sb else half_va('start', half)
+                v = mk_start(T if T == VA else PG, b)
+                declare(st, v, {'start': r, 'count': [(0, M64)]})
+                outs = run_case(chk, fn_, [v, BV.sym(64, 'count')], st, sub)
+                tagc = 'Step::%s for %s from the %s half' % (meth, label, half)
+                sites = set()
+                for o in outs:
+                    sites |= set(wrap_sites(o))
+                chk.ob('no-silent-wrap', tagc, not sites and all(o.kind == 'ret' for o in outs), 'unproved overflow sites %r; paths %r' % (sorted(sites, key=repr), [o.kind for o in outs]), fn_site(I, fn_))
+                somes = [o for o in outs if o.kind == 'ret' and o.val.vname == 'Some']
+                nones = [o for o in outs if o.kind == 'ret' and o.val.vname == 'None']
+                okc = bool(somes)
+                oke = bool(somes)
+                bad = None
+                for o in somes:
+                    res = I.norm(o.st, inner(o.val.fields[0]))
+                    if not canonical(res.bits):
+                        rr = I.rng_of(o.st, res)
+                        if not rr or not all(bb < (1 << 47) or aa >= (1 << 64) - (1 << 47) for aa, bb in rr):
+                            okc = False
+                    if sb and not all(x == 0 for x in res.bits[:sb]):
                         okc = False
-                want = pos_aff(I, o.st, I.resub(o.st, b), half).add(Aff({('count', 0, 64): 1}, 0), sign)
-                got = result_pos(I, o.st, res)
-                if not I.aff_equal(o.st, got, want):
-                    oke = False
-                    bad = (res, got, want)
-            chk.ob('canonical', '%s: every Some(address) is canonical' % tagc, okc, 'paths %r' % (somes,), fn_site(I, fn_))
-            chk.ob('exact-step', '%s: Some(a) with position(a) = position(start) %s count' % (tagc, '+' if sign > 0 else '-'), oke, 'mismatch %r' % (bad,), fn_site(I, fn_),
-                   sample=[repr(inner(o.val.fields[0])) for o in somes][:3])
-            # None exactly when the position does not exist
-            okn = bool(nones)
-            why = []
-            for o in nones:
-                cr = o.st.rng.get('count')
-                reason = None
-                if cr and min(a for a, _ in cr) > SPACE:
-                    reason = 'count > 2^48'
-                else:
-                    # the sum / difference left the 48-bit position space on this path
-                    for nm, rg in o.st.rng.items():
-                        d = o.st.defs.get(nm)
-                        if d is None or not rg:
-                            continue
-                        pa = I.expand_aff(o.st, d[0])
-                        if sign > 0 and nm.startswith('add#'):
-                            base = 0 if half == 'lower' else TOPFIX
-                            if min(a for a, _ in rg) - base >= SPACE:
-                                reason = 'position(start) + count >= 2^48 (sum in %#x..)' % min(a for a, _ in rg)
-                        if sign < 0 and nm.startswith('sub#'):
-                            base = 0 if half == 'lower' else TOPFIX
-                            if max(bb for _, bb in rg) < base:
-                                reason = 'position(start) - count < 0 (difference below %#x)' % base
+                    want = pos_aff(I, o.st, I.resub(o.st, b), half).add(Aff({('count', 0, 64): scale}, 0), sign)
+                    got = result_pos(I, o.st, res)
+                    if not I.aff_equal(o.st, got, want):
+                        oke = False
+                        bad = (res, got, want)
+                chk.ob('canonical', '%s: every Some(..) is canonical%s' % (tagc, ' and size-aligned' if sb else ''), okc, 'paths %r' % (somes,), fn_site(I, fn_))
+                chk.ob('exact-step', '%s: Some(a) with position(a) = position(start) %s count%s' % (tagc, '+' if sign > 0 else '-', (' * %#x' % scale) if sb else ''), oke, 'mismatch %r' % (bad,),
+                       fn_site(I, fn_), sample=[repr(inner(o.val.fields[0])) for o in somes][:3])
+                # None exactly when the position does not exist
+                okn = bool(nones)
+                why = []
+                for o in nones:
+                    cr = o.st.rng.get('count')
+                    reason = None
+                    if any(n[0] == 'checked_mul overflows' and n[1] == 1 for n in o.st.notes):
+                        reason = 'count * SIZE >= 2^64'
+                    elif cr and min(a for a, _ in cr) * scale > SPACE:
+                        reason = 'count * step > 2^48'
+                    else:
+                        # the sum / difference left the 48-bit position space on this path
+                        for nm, rg in o.st.rng.items():
+                            d = o.st.defs.get(nm)
+                            if d is None or not rg:
+                                continue
+                            if sign > 0 and nm.startswith('add#'):
+                                base = 0 if half == 'lower' else TOPFIX
+                                if min(a for a, _ in rg) - base >= SPACE:
+                                    reason = 'position(start) + count >= 2^48 (sum in %#x..)' % min(a for a, _ in rg)
+                            if sign < 0 and nm.startswith('sub#'):
+                                base = 0 if half == 'lower' else TOPFIX
+                                if max(bb for _, bb in rg) < base:
+                                    reason = 'position(start) - count < 0 (difference below %#x)' % base
+                            if nm.startswith('mul#') and min(a for a, _ in rg) > SPACE:
+                                reason = 'count * SIZE > 2^48'
+                        if reason is None:
+                            for n in o.st.notes:
+                                if n[0] == 'checked_add overflows' and n[1] == 1 and sign > 0 and half == 'upper':
+                                    reason = 'start + count >= 2^64, i.e. position(start) + count >= 2^48'
+                                if n[0] == 'checked_sub overflows' and n[1] == 1 and sign < 0 and half == 'lower':
+                                    reason = 'count > start = position(start)'
                     if reason is None:
-                        for n in o.st.notes:
-                            if n[0] == 'checked_add overflows' and n[1] == 1 and sign > 0 and half == 'upper':
-                                reason = 'start + count >= 2^64, i.e. position(start) + count >= 2^48'
-                            if n[0] == 'checked_sub overflows' and n[1] == 1 and sign < 0 and half == 'lower':
-                                reason = 'count > start = position(start)'
-                if reason is None:
-                    okn = False
-                why.append(reason)
-            chk.ob('exact-step', '%s: None only when the target position lies outside the 2^48 canonical addresses' % tagc, okn, 'None paths: %r' % (why,), fn_site(I, fn_), sample=why)
-    # usize / Step wrappers delegate
-    for fn_, target in ((VA + '::forward_checked_impl', VA + '::forward_checked_u64'), ('<%s as core::iter::Step>::forward_checked' % VA, VA + '::forward_checked_u64'),
-                        ('<%s as core::iter::Step>::backward_checked' % VA, VA + '::backward_checked_u64')):
-        delegates(chk, fn_, target, [Struct(VA, [half_va('start', 'lower')[0]]), BV.sym(64, 'count')], lambda args: [args[0], args[1]])
-    delegates(chk, '<%s as core::iter::Step>::steps_between' % VA, VA + '::steps_between_impl', None, None, refs=True)
-
-
-def delegates(chk, fn_, target, args, expect, refs=False):
-    """fn_ forwards its arguments to `target` (possibly through one wrapper) and returns its result"""
-    I = chk.I
-    saved = set(I.opaque_fns)
-    I.opaque_fns |= {target}
-    try:
-        st = State()
-        if refs:
-            a = arg_obj(st, 'a', Struct(VA, [half_va('s', 'lower')[0]]))
-            b = arg_obj(st, 'b', Struct(VA, [half_va('e', 'lower')[0]]))
-            args = [a, b]
-            expect = lambda x: [x[0], x[1]]
-        outs = run_case(chk, fn_, args, st)
-    finally:
-        I.opaque_fns = saved
-    ok = bool(outs)
-    n = 0
-    for o in outs:
-        calls = [e for e in o.st.events if e[0] == 'call' and e[1] == target]
-        if o.kind == 'ret' and calls:
-            n += 1
-            ok = ok and len(calls) == 1 and all(same(x, y) for x, y in zip(calls[0][2], expect(args)))
-        elif o.kind == 'ret':
-            # early exit before the call (usize -> u64 conversion failure): must be None
-            ok = ok and isinstance(o.val, Enum) and o.val.vname == 'None'
-        else:
-            ok = False
-    chk.ob('delegation', '%s forwards to %s' % (fn_.replace('core::iter::', ''), target.split('::')[-1]), ok and n >= 1, 'paths %r' % (outs,), fn_site(I, fn_))
+                        okn = False
+                    why.append(reason)
+                chk.ob('exact-step', '%s: None only when the target position lies outside the 2^48 canonical addresses' % tagc, okn, 'None paths: %r' % (why,), fn_site(I, fn_), sample=why)
 
 
 def steps_between(chk):
+    """Step::steps_between of VirtAddr and Page<S>, end to end: (n, Some(n)) with n = (position(end) - position(start)) / step for ordered
+    pairs, (0, None) exactly when end < start"""
     I = chk.I
-    fn_ = VA + '::steps_between_u64'
-    for hs in ('lower', 'upper'):
-        for he in ('lower', 'upper'):
-            st = State()
-            sbits, rs = half_va('s', hs)
-            ebits, re_ = half_va('e', he)
-            sv, ev = Struct(VA, [sbits]), Struct(VA, [ebits])
-            declare(st, sv, {'s': rs})
-            declare(st, ev, {'e': re_})
-            a = arg_obj(st, 'start', sv)
-            b = arg_obj(st, 'end', ev)
-            outs = run_case(chk, fn_, [a, b], st)
-            tagc = 'steps_between_u64(start in %s half, end in %s half)' % (hs, he)
-            somes = [o for o in outs if o.kind == 'ret' and o.val.vname == 'Some']
-            nones = [o for o in outs if o.kind == 'ret' and o.val.vname == 'None']
-            ok = all(o.kind == 'ret' for o in outs)
-            if hs == 'upper' and he == 'lower':
-                # end is always before start
-                chk.ob('exact-distance', tagc + ': always None (end before start)', ok and not somes and len(nones) == 1, 'paths %r' % (outs,), fn_site(I, fn_))
-                continue
-            oke = bool(somes)
-            for o in somes:
-                want = pos_aff(I, o.st, I.resub(o.st, ebits), he).add(pos_aff(I, o.st, I.resub(o.st, sbits), hs), -1)
-                got = I.exact_aff(o.st, I.norm(o.st, o.val.fields[0]))
-                oke = oke and I.aff_equal(o.st, got, want)
-            chk.ob('exact-distance', tagc + ': Some(position(end) - position(start))', ok and oke, 'paths %r' % (outs,), fn_site(I, fn_), sample=[repr(o.val) for o in somes][:2])
-            if hs == he:
-                okn = len(nones) == 1 and any(n[0] == 'checked_sub overflows' and n[1] == 1 for n in nones[0].st.notes)
-                chk.ob('exact-distance', tagc + ': None exactly when end < start', okn and len(somes) == 1, 'paths %r' % (outs,), fn_site(I, fn_))
-            else:
-                chk.ob('exact-distance', tagc + ': never None (end is after start)', not nones, 'paths %r' % (outs,), fn_site(I, fn_))
-    # steps_between_impl = (n, Some(n)) of the u64 result
-    fn2 = VA + '::steps_between_impl'
-    saved = set(I.opaque_fns)
-    I.opaque_fns |= {fn_}
-    try:
-        st = State()
-        a = arg_obj(st, 'start', Struct(VA, [half_va('s', 'lower')[0]]))
-        b = arg_obj(st, 'end', Struct(VA, [half_va('e', 'lower')[0]]))
-        outs = run_case(chk, fn2, [a, b], st)
-    finally:
-        I.opaque_fns = saved
-    ok = bool(outs) and all(o.kind == 'ret' for o in outs)
-    for o in outs:
-        calls = [e for e in o.st.events if e[0] == 'call' and e[1] == fn_]
-        ok = ok and len(calls) == 1 and same(calls[0][2][0], a) and same(calls[0][2][1], b)
-        lo, hi = o.val.fields
-        if hi.vname == 'Some':
-            ok = ok and same(lo, hi.fields[0]) and any(isinstance(x, tuple) and x[0] == 'v' and x[1].startswith('steps_between_u64#') for x in lo.bits)
-        else:
-            ok = ok and eval_value(lo, {}) == 0
-    chk.ob('delegation', 'steps_between_impl = (n, Some(n)) for Some(n) of steps_between_u64, (0, None) for None', ok, 'paths %r' % (outs,), fn_site(I, fn2))
-
-
-def page_steps(chk):
-    I = chk.I
-    for sname, sb in SIZES.items():
-        S = size_ty(sname)
-        for fn_, target in ((PG + '::<S>::forward_checked_impl', VA + '::forward_checked_u64'), ('<%s<S> as core::iter::Step>::backward_checked' % PG, VA + '::backward_checked_u64')):
-            st = State()
-            pb, pr = half_va('p', 'lower', sb)
-            pg = Struct(PG, [Struct(VA, [pb]), UNIT])
-            declare(st, pg, {'p': pr, 'count': [(0, M64)]})
-            saved = set(I.opaque_fns)
-            I.opaque_fns |= {target}
-            try:
-                outs = run_case(chk, fn_, [pg, BV.sym(64, 'count')], st, {'S': S})
-            finally:
-                I.opaque_fns = saved
-            ok = bool(outs) and all(o.kind == 'ret' for o in outs)
-            sites = set()
-            n_call = 0
-            for o in outs:
-                sites |= set(wrap_sites(o))
-                calls = [e for e in o.st.events if e[0] == 'call' and e[1] == target]
-                if calls:
-                    n_call += 1
-                    a0, a1 = calls[0][2]
-                    ok = ok and len(calls) == 1 and same(inner(a0), I.resub(o.st, pb)) and I.aff_equal(o.st, I.exact_aff(o.st, a1), Aff({('count', 0, 64): 1 << sb}, 0))
-                    if o.val.vname == 'Some':
-                        # the page is rebuilt from the address the step returned
-                        rb = inner(o.val.fields[0])
-                        ok = ok and any(isinstance(x, tuple) and x[0] == 'v' and x[1].startswith(target.split('::')[-1] + '#') for x in rb.bits)
+    for label, T, sub, sb in step_cases():
+        scale = 1 << sb
+        fn_ = '<%s as core::iter::Step>::steps_between' % T
+        for hs in ('lower', 'upper'):
+            for he in ('lower', 'upper'):
+                st = State()
+                sbits, rs = half_va('s', hs, sb) if sb else half_va('s', hs)
+                ebits, re_ = half_va('e', he, sb) if sb else half_va('e', he)
+                sv, ev = mk_start(T if T == VA else PG, sbits), mk_start(T if T == VA else PG, ebits)
+                declare(st, sv, {'s': rs})
+                declare(st, ev, {'e': re_})
+                a = arg_obj(st, 'start', sv)
+                b = arg_obj(st, 'end', ev)
+                outs = run_case(chk, fn_, [a, b], st, sub)
+                tagc = 'Step::steps_between for %s (start in %s half, end in %s half)' % (label, hs, he)
+                ok = bool(outs) and all(o.kind == 'ret' and isinstance(o.val, Struct) and len(o.val.fields) == 2 for o in outs)
+                somes = [o for o in outs if ok and o.val.fields[1].vname == 'Some']
+                nones = [o for o in outs if ok and o.val.fields[1].vname == 'None']
+                okshape = ok and all(same(o.val.fields[0], o.val.fields[1].fields[0]) for o in somes) and all(eval_value(o.val.fields[0], {}) == 0 for o in nones)
+                chk.ob('exact-distance', tagc + ': returns (n, Some(n)) or (0, None)', okshape, 'paths %r' % (outs,), fn_site(I, fn_), nontrivial=False)
+                if hs == 'upper' and he == 'lower':
+                    # end is always before start
+                    chk.ob('exact-distance', tagc + ': always None (end before start)', ok and not somes and len(nones) == 1, 'paths %r' % (outs,), fn_site(I, fn_))
+                    continue
+                oke = bool(somes)
+                for o in somes:
+                    want = pos_aff(I, o.st, I.resub(o.st, ebits), he).add(pos_aff(I, o.st, I.resub(o.st, sbits), hs), -1)
+                    res = I.norm(o.st, o.val.fields[1].fields[0])
+                    if sb:
+                        # n = d >> log2(step) for one distance value d (both ends are step-aligned, so the division is exact): decide d
+                        names = {x[1] for x in res.bits if isinstance(x, tuple) and x[0] == 'v'}
+                        k = sum(1 for x in res.bits if isinstance(x, tuple))
+                        shifted = len(names) == 1 and all(isinstance(x, tuple) and x[0] == 'v' and not x[3] and x[2] == i + sb for i, x in enumerate(res.bits[:k])) and \
+                            all(x == 0 for x in res.bits[k:]) and k + sb >= 47
+                        if not shifted:
+                            oke = False
+                            continue
+                        nm = next(iter(names))
+                        res = BV(64, [lit(nm, i) for i in range(k + sb)] + [0] * (64 - k - sb))
+                    got = I.exact_aff(o.st, I.norm(o.st, res))
+                    oke = oke and got is not None and I.aff_equal(o.st, got, want)
+                chk.ob('exact-distance', tagc + ': Some((position(end) - position(start))%s)' % ((' / %#x' % scale) if sb else ''), ok and oke, 'paths %r' % (outs,), fn_site(I, fn_),
+                       sample=[repr(o.val) for o in somes][:2])
+                if hs == he:
+                    # the None path is the one on which end < start was found (checked_sub overflowing, or an explicit comparison)
+                    okn = len(nones) == 1 and (any(n[0] == 'checked_sub overflows' and n[1] == 1 for n in nones[0].st.notes) or path_says_less(I, nones[0], ebits, sbits))
+                    chk.ob('exact-distance', tagc + ': None exactly when end < start', okn and len(somes) == 1, 'paths %r' % (outs,), fn_site(I, fn_))
                 else:
-                    ok = ok and o.val.vname == 'None'
-            chk.ob('page-step', '%s<%s>: steps the start address by count * SIZE (checked multiplication) and rebuilds the page from the result' % (fn_.split('::')[-1] if '<S>::' in fn_ else 'Step::backward_checked', sname),
-                   ok and n_call >= 1 and not sites, 'paths %r sites %r' % (outs, sites), fn_site(I, fn_))
-        # steps_between_impl: address distance / SIZE
-        fn_ = PG + '::<S>::steps_between_impl'
-        target = VA + '::steps_between_u64'
-        st = State()
-        a = arg_obj(st, 'start', Struct(PG, [Struct(VA, [half_va('s', 'lower', sb)[0]]), UNIT]))
-        b = arg_obj(st, 'end', Struct(PG, [Struct(VA, [half_va('e', 'lower', sb)[0]]), UNIT]))
-        saved = set(I.opaque_fns)
-        I.opaque_fns |= {target}
-        try:
-            outs = run_case(chk, fn_, [a, b], st, {'S': S})
-        finally:
-            I.opaque_fns = saved
-        ok = bool(outs) and all(o.kind == 'ret' for o in outs)
-        for o in outs:
-            calls = [e for e in o.st.events if e[0] == 'call' and e[1] == target]
-            ok = ok and len(calls) == 1
-            lo, hi = o.val.fields
-            if hi.vname == 'Some':
-                q = hi.fields[0]
-                ok = ok and same(lo, q) and isinstance(q, BV) and all(isinstance(x, tuple) and x[1].startswith('steps_between_u64#') and x[2] == i + sb for i, x in enumerate(q.bits[:64 - sb])) and \
-                    all(x == 0 for x in q.bits[64 - sb:])
-            else:
-                ok = ok and eval_value(lo, {}) == 0
-        chk.ob('page-step', 'Page<%s>::steps_between_impl = address distance / SIZE' % sname, ok, 'paths %r' % (outs,), fn_site(I, fn_))
-    delegates_page(chk)
-
-
-def delegates_page(chk):
-    I = chk.I
-    S = size_ty('Size4KiB')
-    for fn_, target in (('<%s<S> as core::iter::Step>::forward_checked' % PG, PG + '::<S>::forward_checked_impl'), ('<%s<S> as core::iter::Step>::steps_between' % PG, PG + '::<S>::steps_between_impl')):
-        saved = set(I.opaque_fns)
-        I.opaque_fns |= {target}
-        try:
-            st = State()
-            if 'steps_between' in fn_:
-                args = [arg_obj(st, 'a', Struct(PG, [Struct(VA, [half_va('s', 'lower', 12)[0]]), UNIT])), arg_obj(st, 'b', Struct(PG, [Struct(VA, [half_va('e', 'lower', 12)[0]]), UNIT]))]
-            else:
-                args = [Struct(PG, [Struct(VA, [half_va('p', 'lower', 12)[0]]), UNIT]), BV.sym(64, 'count')]
-            outs = run_case(chk, fn_, args, st, {'S': S})
-        finally:
-            I.opaque_fns = saved
-        ok = bool(outs) and all(o.kind == 'ret' for o in outs)
-        for o in outs:
-            calls = [e for e in o.st.events if e[0] == 'call' and e[1] == target]
-            ok = ok and len(calls) == 1 and all(same(x, y) for x, y in zip(calls[0][2], args))
-            # the callee's result is returned as it is: every symbol in the value is the opaque result
-            tagp = '%s#%d' % (target.split('::')[-1], calls[0][5]) if calls else '?'
-            ok = ok and tagp in repr(o.val) if not (isinstance(o.val, Enum) and o.val.vname == 'None') else ok
-        chk.ob('delegation', '%s forwards to %s' % (fn_.replace('core::iter::', '').replace('structures::paging::page::', ''), target.split('::')[-1]), ok, 'paths %r' % (outs,), fn_site(I, fn_))
+                    chk.ob('exact-distance', tagc + ': never None (end is after start)', not nones, 'paths %r' % (outs,), fn_site(I, fn_))
 
 
 def index_steps(chk):
@@ -382,3 +280,22 @@ def step_overrides(chk):
                 else:
                     ok, why = False, 'path ends with %s' % o.kind
             chk.ob('step-overrides', 'Step for %s: the overridden `%s` is %s(..) unwrapped (Some(x) -> x, None -> panic)' % (short, n, base), ok, why or 'paths %r' % (outs,), fn_site(I, fn_))
+
+
+def path_says_less(I, o, abits, bbits):
+    """did this path branch on a < b (unsigned) being true - in any of the ways the comparison can be written?"""
+    from .c07 import canon_rel
+    ta, tb = tuple(I.resub(o.st, abits).bits) if hasattr(abits, 'bits') else tuple(abits), tuple(I.resub(o.st, bbits).bits) if hasattr(bbits, 'bits') else tuple(bbits)
+    ra, rb = (tuple(abits.bits), tuple(bbits.bits)) if hasattr(abits, 'bits') else (tuple(abits), tuple(bbits))
+    for e in o.st.events:
+        if e[0] != 'branch':
+            continue
+        r = canon_rel(e[1])
+        if r is None:
+            continue
+        op, l, rr = r
+        truth = e[2]
+        for (x, y) in ((ra, rb), (ta, tb)):
+            if (op == '<' and l == x and rr == y and truth == 1) or (op == '<=' and l == y and rr == x and truth == 0):
+                return True
+    return False
